@@ -13,7 +13,11 @@ OUT=$(mktemp -d /tmp/seedout.XXXXXX)
 R="$D/result.txt"; : > "$R"
 cp "$D/demo_test.go" "$WT/zz_demo_test.go"
 (cd "$WT" && timeout 300 go test -vet=off -count=1 -run 'TestDemo$' . > "$OUT/demo_clean.log" 2>&1); DC=$?
-if ! git -C "$WT" apply "$D/patch.diff"; then echo "APPLY-FAILED" | tee -a "$R"; exit 2; fi
+# (patches were written against earlier commits of /repo: later fix: commits may have moved their context)
+if ! git -C "$WT" apply "$D/patch.diff" 2>/dev/null; then
+  if ! git -C "$WT" apply -3 "$D/patch.diff" >/dev/null 2>&1 || [ -n "$(git -C "$WT" diff --name-only --diff-filter=U)" ]; then echo "APPLY-FAILED" | tee -a "$R"; exit 2; fi
+  git -C "$WT" reset -q
+fi
 (cd "$WT" && timeout 300 go test -vet=off -count=1 -run 'TestDemo$' . > "$OUT/demo_mut.log" 2>&1); DM=$?
 rm "$WT/zz_demo_test.go"
 if [ -z "${SKIP_SUITE:-}" ]; then (cd "$WT" && timeout 1500 go test -vet=off -count=1 -timeout 25m ./... > "$OUT/suite.log" 2>&1); SU=$?; if [ $SU -ne 0 ]; then (cd "$WT" && timeout 1500 go test -vet=off -count=1 -timeout 25m ./... > "$OUT/suite.log" 2>&1); SU=$?; fi; else SU=skipped; fi
